@@ -419,7 +419,7 @@ package main
 //@ ensures [C18] imp(result1 != nil, result0 == nil)
 //@ ghost j0 int
 //@ ensures [C18] imp(result1 == nil, result0 != nil)
-//@ ensures [C11,C12,C02,C10] imp(result1 == nil, fresh(result0) && !result0.IsRoot && result0.Path == c.path)
+//@ ensures [C11,C12,C02,C10,C15] imp(result1 == nil, fresh(result0) && !result0.IsRoot && result0.Path == c.path)
 //@ ensures imp(result1 == nil && 0 <= j0 && j0 < len(result0.Fields), result0.Fields[j0] != nil && fresh(result0.Fields[j0]))
 //@ ensures wfp(c.plugin)
 
@@ -585,9 +585,9 @@ package main
 //@ define wf = as(holder, *$OneOfType)
 //@ define wg = as(holder, *M_${ID}_G)
 //@ modifies obj.Holder, obj.S
-//@ ensures [C07,C05] imp(!known && !gknown, holder == nil)
-//@ ensures [C07,C06] imp(!known && gknown, is(holder, *M_${ID}_G) && wg != nil && fresh(wg) && wg.G == int32(vg.Value))
-//@ ensures [C07,C04] imp(known, is(holder, *$OneOfType) && wf != nil && fresh(wf))
+//@ ensures [C07,C05,C15] imp(!known && !gknown, holder == nil)
+//@ ensures [C07,C06,C15] imp(!known && gknown, is(holder, *M_${ID}_G) && wg != nil && fresh(wg) && wg.G == int32(vg.Value))
+//@ ensures [C07,C04,C15] imp(known, is(holder, *$OneOfType) && wf != nil && fresh(wf))
 
 // ---- primitives
 //@ emits CopyFrom when Kind == "Primitive"
